@@ -95,7 +95,7 @@ CHECKS = {
  "C14": dict(
    technique="exhaustive pairwise comparison of ~1000 compile-time type-id constants + generated search over a differentially validated term mirror of the id computation; query-id uniqueness over generated keys; cross-process comparison",
    category="exploration",
-   text="(a) the STABLE_TYPE_ID constants of every type of the universe plus an id-only list of permuted / re-nested / re-ordered instantiations (tuples to arity 6, arrays, Result, maps, wrappers, pointers, cells, atomics, derived generics) are compared pairwise by canonical type name; (b) a term mirror computes ids with the real from_unique_type_name/combine in the shape of the impls, is validated against real constants per constructor, and 2 million (thorough 40 million) generated terms plus their structural neighbours are checked for id collisions and combine laws; (c) QueryIDs of the seven harness query types over 3000 keys x 2 hasher seeds; (d) ids printed by three processes are compared (with C13).",
+   text="(a) the STABLE_TYPE_ID constants of every type of the universe plus an id-only list of permuted / re-nested / re-ordered instantiations (tuples to arity 6, arrays, Result, maps, wrappers, pointers, cells, atomics, derived generics) are compared pairwise by canonical type name; (b) a term mirror computes ids with the real from_unique_type_name/combine in the shape of the impls, is validated against real constants per constructor, and 6 million (thorough 60 million) generated terms plus their structural neighbours are checked for id collisions and combine laws; (c) QueryIDs of the seven harness query types over 3000 keys x 2 hasher seeds; (d) ids printed by three processes are compared (with C13).",
    design_ref="DESIGN.md section 3 C14",
    note="An accidental 128-bit collision outside the explored set cannot be excluded. Engine-visible aliasing is additionally covered by every C01 run (all query types share every key payload).",
    engine="E5/E6 type universe"),
